@@ -150,6 +150,45 @@ theorem request_roundtrip (method target host : Bytes) (port : Nat) (hs : Dic) (
   unfold header norm
   rw [this]; rfl
 
+/-- **chunked_request_roundtrip** (after the repair a376a88).  A client asked to send its body chunked (`Transfer-Encoding:
+chunked` set on its header dictionary): it sends no Content-Length, the body in chunks of the send block and the last
+chunk; the server-side reader returns exactly the method, target, headers and body, for every fragmentation, and stops
+exactly behind the last chunk. -/
+theorem chunked_request_roundtrip (method target host : Bytes) (port : Nat) (hs0 : Dic) (body rest : Bytes) (cuts : List Nat)
+    (hm : WFWord method) (ht : WFWord target) (hfit : method.length + target.length + 11 ≤ 16001)
+    (hhp : WFValue (host ++ [58] ++ utoa port)) (hhpfit : FitsLine sHostName (host ++ [58] ++ utoa port))
+    (hh : Canon hs0) (hnf : NoFraming hs0) :
+    ∃ (q : Request) (i' : Inp),
+      readRequest (Inp.ofBytes ((clientSend method target host port (setHeader hs0 sTransferEncoding sChunked) body).2 ++ rest) cuts) = (q, i') ∧
+      i'.data = rest ∧ Live i' ∧ q.method = method ∧ q.resource = target ∧ q.body = body ∧
+      q.headers = norm ((sHostName, host ++ [58] ++ utoa port) :: setHeader hs0 sTransferEncoding sChunked) ∧
+      hasHeader q.headers sContentLength = false := by
+  obtain ⟨h1, h2, h3, hD, hfr⟩ := client_chunked_framed hs0 hh hnf (host ++ [58] ++ utoa port) body hhp.1
+  let x : Wire := Wire.mk method target sHttp11 ((sHostName, host ++ [58] ++ utoa port) :: setHeader hs0 sTransferEncoding sChunked)
+    (writeBody true sendBlock body ++ lastChunk) body
+  have hwf : x.WF := by
+    refine ⟨hm, ht, Or.inl rfl, hfit, ?_, reads_of_framed hfr⟩
+    intro y hy
+    rcases List.mem_cons.mp hy with h | h
+    · subst h; exact ⟨wf_name_host, hhp, hhpfit⟩
+    · exact hD.wf y h
+  have hbytes : (clientSend method target host port (setHeader hs0 sTransferEncoding sChunked) body).2 = x.bytes := by
+    unfold clientSend
+    simp only [h1, if_true, h2, h3]
+    simp [x, Wire.bytes, headerBlock, headerLines, clientCommand, sHostName, List.append_assoc]
+  obtain ⟨i', hread, hdat, hlive⟩ := wire_request_exact x hwf rest
+    (Inp.ofBytes ((clientSend method target host port (setHeader hs0 sTransferEncoding sChunked) body).2 ++ rest) cuts) ⟨rfl, rfl⟩
+    (by simp [Inp.ofBytes, hbytes])
+  refine ⟨_, i', hread, hdat, hlive, rfl, rfl, rfl, rfl, ?_⟩
+  refine (header_norm_absent sContentLength cap_cl _ (fun y hy => ?_)).1
+  rcases List.mem_cons.mp hy with h | h
+  · subst h; exact ⟨hhp.1, cap_host_ne.1⟩
+  · refine ⟨(hD.wf y h).2.1.1, ?_⟩
+    rw [setHeader_of_value (by decide), cap_te] at h
+    rcases mem_dicSet h with h | h
+    · subst h; decide
+    · exact (hnf y h).1
+
 /-! ## several exchanges on one connection -/
 
 /-- a request after which the server reads the connection again: well formed, a target with a path, and the connection
@@ -566,6 +605,13 @@ theorem reader_accepts_rfc_chunked (H : Dic) (w b rest : Bytes) (hcb : Spec.Chun
 theorem reads_of_rfc_chunked (H : Dic) (w b : Bytes) (hcb : Spec.ChunkedBody w b) (hb : b.length < 2147483648)
     (hcl : hasHeader H sContentLength = false) (hte : teChunked (header H sTransferEncoding) = true) : BodyReads H w b :=
   fun i rest hi hd => reader_accepts_rfc_chunked H w b rest hcb hb hcl hte i hi hd
+
+/-- **suffix_range_spec** (after the repair 4d5fd22).  `Range: bytes=-k` on a file of `n` bytes: the last `k` bytes (RFC 7233
+suffix-byte-range-spec) — bytes `n-k .. n-1`, all of the file when it is shorter than `k`; unsatisfiable for `k = 0` or an
+empty file. -/
+theorem suffix_range_spec (n k : Nat) :
+    rangeOf n (suffixRange n k).1 (suffixRange n k).2 = if k = 0 ∨ n = 0 then none else some (n - min k n, n - 1) :=
+  suffix_range n k
 
 /-! ## the blocking socket loops complete partial transfers -/
 
